@@ -301,4 +301,253 @@ Section WithCfg.
     - cbn [m2j] in Hj. inversion Hj; subst j. cbn [wrap]. rewrite j2m_det_string.
       cbn [md_wf] in Hwf. unfold new_text. destruct (MD_MAX_LEN <? blen s) eqn:E; [lia|reflexivity].
   Qed.
+
+  (* ===== metadata -> JSON -> metadata, NoConversions (maps with ascending text keys) ===== *)
+  Lemma md_sorted_map l : md_sorted (MMap l) = true ->
+    keys_ascending (List.map (fun kv => (key_text (fst kv), snd kv)) l) = true /\
+    Forall (fun kv => md_sorted (snd kv) = true) l.
+  Proof.
+    cbn [md_sorted]. rewrite andb_true_iff, pairs_all_Forall. intros [H1 H2]. split; [exact H1|].
+    eapply Forall_impl; [|exact H2]. cbn. tauto.
+  Qed.
+
+  Theorem md_json_md_noconv m : forall j,
+    md_wf m = true -> md_sorted m = true -> m2j NoConv m = Ok j -> j2m c NoConv j = Ok m.
+  Proof.
+    induction m as [l IH|l IH|z|b|s] using md_ind'; intros j Hwf Hs Hj.
+    - rewrite m2j_plain_map in Hj by discriminate.
+      destruct (mapM (pair_dec NoConv) l) as [kvs| | |] eqn:E; cbn [bind] in Hj; try discriminate.
+      inversion Hj; subst j; clear Hj. rewrite j2m_plain_obj by discriminate.
+      destruct (md_wf_map _ Hwf) as [Hnd Hwfs]. destruct (md_sorted_map _ Hs) as [Hasc Hss].
+      assert (Hm : List.map fst kvs = List.map (fun kv => key_text (fst kv)) l /\ mapM (pair_enc c NoConv) kvs = Ok l).
+      { clear Hnd Hwf Hs Hasc. revert kvs E. induction l as [|[k v] r IHl]; intros kvs E.
+        - cbn in E. inversion E. split; reflexivity.
+        - cbn [mapM pair_dec] in E.
+          destruct (decode_key NoConv k) as [ks| | |] eqn:Ek; cbn [bind] in E; try discriminate.
+          destruct (m2j NoConv v) as [jv| | |] eqn:Ev; cbn [bind] in E; try discriminate.
+          destruct (mapM (pair_dec NoConv) r) as [kvs'| | |] eqn:Er; cbn [bind] in E; try discriminate.
+          inversion E; subst kvs; clear E. inversion IH as [|? ? [Pk Pv] IHr]; subst.
+          inversion Hwfs as [|? ? [Wk Wv] Wr]; subst. inversion Hss as [|? ? Sv Sr]; subst. cbn [fst snd] in *.
+          destruct (IHl IHr Wr Sr kvs' eq_refl) as [Hk Hr].
+          destruct k; cbn [decode_key] in Ek; try discriminate. inversion Ek; subst ks.
+          split; [cbn [List.map fst key_text]; now rewrite Hk|].
+          cbn [mapM pair_enc encode_key]. unfold new_text. cbn [md_wf] in Wk.
+          destruct (MD_MAX_LEN <? blen s) eqn:El; [lia|]. cbn [bind].
+          rewrite (Pv _ Wv Sv Ev). cbn [bind]. now rewrite Hr. }
+      destruct Hm as [Hk Hm].
+      rewrite obj_of_list_sorted.
+      + rewrite Hm. cbn [bind]. now rewrite lhm_of_list_nodup.
+      + rewrite <- Hasc. apply keys_ascending_keys. rewrite Hk, map_map. reflexivity.
+    - rewrite m2j_list in Hj. destruct (mapM (m2j NoConv) l) as [xs| | |] eqn:E; cbn [bind] in Hj; try discriminate.
+      inversion Hj; subst j; clear Hj. cbn [wrap]. rewrite j2m_plain_arr by discriminate.
+      pose proof (md_wf_list _ Hwf) as Hwfs.
+      assert (Hss : Forall (fun x => md_sorted x = true) l).
+      { cbn [md_sorted] in Hs. rewrite forallb_forall in Hs. now apply Forall_forall. }
+      assert (Hm : mapM (j2m c NoConv) xs = Ok l).
+      { clear Hwf Hs. revert xs E. induction l as [|x r IHl]; intros xs E.
+        - cbn in E. inversion E. reflexivity.
+        - cbn [mapM] in E. destruct (m2j NoConv x) as [jx| | |] eqn:Ex; cbn [bind] in E; try discriminate.
+          destruct (mapM (m2j NoConv) r) as [xs'| | |] eqn:Er; cbn [bind] in E; try discriminate.
+          inversion E; subst xs; clear E. inversion IH; subst. inversion Hwfs; subst. inversion Hss; subst.
+          cbn [mapM]. rewrite (H1 _ H3 H5 Ex). cbn [bind]. now rewrite (IHl H2 H4 H6 xs' eq_refl). }
+      now rewrite Hm.
+    - cbn [m2j] in Hj. destruct (int_json_range z) eqn:E; [|discriminate]. inversion Hj; subst j. cbn [wrap].
+      change (j2m c NoConv (JInt z)) with (encode_number c (JInt z)).
+      rewrite encode_number_spec. cbn [num_in_schema]. now rewrite in_range_json, E.
+    - cbn [m2j] in Hj. discriminate.
+    - cbn [m2j] in Hj. inversion Hj; subst j. cbn [wrap].
+      change (j2m c NoConv (JStr s)) with (new_text s).
+      cbn [md_wf] in Hwf. unfold new_text. destruct (MD_MAX_LEN <? blen s) eqn:E; [lia|reflexivity].
+  Qed.
+
+  (* ===== JSON -> metadata -> JSON on each schema's normal form ===== *)
+  Hypothesis Hkey : c_key_unchecked c = false.
+
+  Lemma lower_hexb_unhex s : lower_hexb s = true -> exists b, unhex s = Some b /\ hex b = s.
+  Proof.
+    unfold lower_hexb. rewrite andb_true_iff. intros [Hl He].
+    assert (exists b, unhex s = Some b) as [b Hb].
+    { clear -Hl He. induction s as [|h|h l r IH] using list_ind2.
+      - now exists [].
+      - cbn in He. discriminate.
+      - cbn [forallb] in Hl. apply andb_prop in Hl as [Hh Hl]. apply andb_prop in Hl as [Hl Hr].
+        destruct IH as [t Ht]; [exact Hr| |].
+        { unfold blen in *. cbn [List.length] in He. rewrite !Nat2N.inj_succ in He.
+          rewrite <- N.even_succ_succ. exact He. }
+        cbn [unhex]. rewrite Ht.
+        assert (forall x, ((48 <=? x) && (x <=? 57)) || ((97 <=? x) && (x <=? 102)) = true -> exists n, unhexc x = Some n) as U.
+        { intros x Hx. unfold unhexc. destruct ((48 <=? x) && (x <=? 57)); [eauto|].
+          destruct ((97 <=? x) && (x <=? 102)); [eauto|discriminate]. }
+        destruct (U _ Hh) as [a ->]. destruct (U _ Hl) as [bb ->]. eauto. }
+    exists b. split; [exact Hb|]. now apply hex_unhex_lower.
+  Qed.
+
+  Lemma basic_str_rt s : basic_str_nf s = true ->
+    exists m, encode_string s Basic = Ok m /\ m2j Basic m = Ok (JStr s) /\ decode_key Basic m = Ok s.
+  Proof.
+    unfold basic_str_nf, encode_string, hex_string_to_bytes. intros H.
+    assert (Ht : blen s <=? MD_MAX_LEN = true ->
+                 exists m, new_text s = Ok m /\ m2j Basic m = Ok (JStr s) /\ decode_key Basic m = Ok s).
+    { intros Hl. exists (MText s). unfold new_text. destruct (MD_MAX_LEN <? blen s) eqn:E; [lia|]. repeat split. }
+    destruct (starts_with k_0x s) eqn:E0; [|now apply Ht].
+    destruct (unhex (skipn 2 s)) as [b|] eqn:Eu; [|now apply Ht].
+    apply andb_prop in H as [H1 H2]. exists (MBytes b). unfold new_bytes.
+    destruct (MD_MAX_LEN <? blen b) eqn:E; [lia|].
+    assert (Hs : bytes_to_hex_string b = s).
+    { unfold bytes_to_hex_string. unfold lower_hexb in H1. apply andb_prop in H1 as [H1 _].
+      rewrite (hex_unhex_lower _ _ H1 Eu). symmetry. exact (starts_with_app k_0x s E0). }
+    repeat split; cbn [m2j decode_key wrap]; now rewrite Hs.
+  Qed.
+
+  Definition key_nf (sc : schema) (k : bytes) : bool :=
+    match sc with Basic => basic_key_nf k | _ => blen k <=? MD_MAX_LEN end.
+
+  Lemma key_rt sc rk : sc <> Detailed -> key_nf sc rk = true ->
+    exists mk, encode_key c sc rk = Ok mk /\ decode_key sc mk = Ok rk.
+  Proof.
+    intros Hsc H.
+    assert (Ht : blen rk <=? MD_MAX_LEN = true -> exists mk, new_text rk = Ok mk /\ decode_key sc mk = Ok rk).
+    { intros Hl. exists (MText rk). unfold new_text. destruct (MD_MAX_LEN <? blen rk) eqn:E; [lia|]. split; reflexivity. }
+    destruct sc; [now apply Ht| |contradiction].
+    cbn [key_nf] in H. unfold basic_key_nf in H. cbn [encode_key]. unfold int_key_range. rewrite Hkey. cbn [orb].
+    destruct (parse_i128 rk) as [x|].
+    - destruct (in_range (- u64_max) u64_max x).
+      + apply andb_prop in H as [H1 H2]. apply bytes_eqb_eq in H2. exists (MInt x). split; [reflexivity|].
+        cbn [decode_key]. rewrite <- in_range_json, H1. now rewrite H2.
+      + destruct (basic_str_rt _ H) as [m [E1 [_ E3]]]. eauto.
+    - destruct (basic_str_rt _ H) as [m [E1 [_ E3]]]. eauto.
+  Qed.
+
+  Lemma decode_key_nodup sc (kvs : list (md * md)) : forall (l : list (bytes * json)),
+    Forall2 (fun a b => decode_key sc (fst a) = Ok (fst b)) kvs l ->
+    NoDup (List.map fst l) -> NoDup (List.map fst kvs).
+  Proof.
+    induction kvs as [|[mk mv] r IH]; intros l F Hnd; [constructor|].
+    inversion F as [|? [rk v] ? l' Hd F']; subst. cbn [List.map fst] in *. inversion Hnd; subst.
+    constructor; [|eauto]. intros Hin. apply H1. clear -Hin F' Hd.
+    induction F' as [|[mk' mv'] [rk' v'] r l' Hd' F' IHF]; [destruct Hin|].
+    cbn [List.map fst In] in *. destruct Hin as [->|Hin]; [left; congruence|right; auto].
+  Qed.
+
+  Theorem json_md_json_plain sc j : sc <> Detailed ->
+    json_wf j = true -> nf_plain sc j = true -> exists m, j2m c sc j = Ok m /\ m2j sc m = Ok j.
+  Proof.
+    intros Hsc. induction j as [|b|z| |lit|s|l IH|l IH] using json_ind'; intros Hwf Hnf; try discriminate.
+    - exists (MInt z). cbn [nf_plain] in Hnf.
+      assert (E : j2m c sc (JInt z) = encode_number c (JInt z)) by (destruct sc; [reflexivity|reflexivity|contradiction]).
+      rewrite E, encode_number_spec. cbn [num_in_schema]. rewrite Hnf. split; [reflexivity|].
+      cbn [m2j]. rewrite <- in_range_json, Hnf. destruct sc; [reflexivity|reflexivity|contradiction].
+    - destruct sc; [|clear Hsc|contradiction].
+      + cbn [nf_plain] in Hnf. exists (MText s). change (j2m c NoConv (JStr s)) with (new_text s).
+        unfold new_text. destruct (MD_MAX_LEN <? blen s) eqn:E; [lia|]. split; reflexivity.
+      + cbn [nf_plain] in Hnf. destruct (basic_str_rt _ Hnf) as [m [E1 [E2 _]]]. exists m. split; [exact E1|exact E2].
+    - cbn [json_wf nf_plain] in Hwf, Hnf. rewrite forallb_forall in Hwf, Hnf.
+      assert (Hm : exists xs, mapM (j2m c sc) l = Ok xs /\ mapM (m2j sc) xs = Ok l).
+      { induction l as [|x r IHl]; [exists []; split; reflexivity|].
+        inversion IH as [|? ? Px Pr]; subst.
+        destruct (Px (Hwf x (or_introl eq_refl)) (Hnf x (or_introl eq_refl))) as [mx [E1 E2]].
+        destruct (IHl Pr (fun y Hy => Hwf y (or_intror Hy)) (fun y Hy => Hnf y (or_intror Hy))) as [xs [E3 E4]].
+        exists (mx :: xs). cbn [mapM]. rewrite E1, E3, E2, E4. split; reflexivity. }
+      destruct Hm as [xs [E1 E2]]. exists (MList xs). rewrite j2m_plain_arr, E1 by assumption.
+      split; [reflexivity|]. rewrite m2j_list, E2. destruct sc; [reflexivity|reflexivity|contradiction].
+    - cbn [json_wf nf_plain] in Hwf, Hnf. apply andb_prop in Hwf as [Hasc Hwf].
+      rewrite obj_all_Forall in Hwf, Hnf. change (fun k => match sc with Basic => basic_key_nf k | _ => blen k <=? MD_MAX_LEN end) with (key_nf sc) in Hnf.
+      assert (Hm : exists kvs, mapM (pair_enc c sc) l = Ok kvs /\ mapM (pair_dec sc) kvs = Ok l /\
+                               Forall2 (fun a b => decode_key sc (fst a) = Ok (fst b)) kvs l).
+      { clear Hasc. induction l as [|[rk v] r IHl]; [exists []; repeat split; constructor|].
+        inversion IH as [|? ? Pv Pr]; subst. inversion Hwf as [|? ? [_ Wv] Wr]; subst.
+        inversion Hnf as [|? ? [Nk Nv] Nr]; subst. cbn [fst snd] in *.
+        destruct (key_rt sc rk Hsc Nk) as [mk [K1 K2]]. destruct (Pv Wv Nv) as [mv [V1 V2]].
+        destruct (IHl Pr Wr Nr) as [kvs [E1 [E2 E3]]].
+        exists ((mk, mv) :: kvs). cbn [mapM pair_enc pair_dec]. rewrite K1, V1, E1, K2, V2, E2.
+        repeat split. constructor; [exact K2|exact E3]. }
+      destruct Hm as [kvs [E1 [E2 E3]]]. exists (MMap kvs). rewrite j2m_plain_obj, E1 by assumption. cbn [bind].
+      rewrite lhm_of_list_nodup by (eapply decode_key_nodup; [exact E3|now apply keys_ascending_NoDup]).
+      split; [reflexivity|]. rewrite m2j_plain_map, E2 by assumption. cbn [bind]. now rewrite obj_of_list_sorted.
+  Qed.
+
+  Lemma json_nodupb_NoDup l : json_nodupb l = true <-> NoDup l.
+  Proof.
+    induction l as [|k r IH]; cbn [json_nodupb]; [split; [constructor|reflexivity]|].
+    rewrite andb_true_iff, negb_true_iff, IH. split.
+    - intros [H1 H2]. constructor; [|exact H2]. intros Hin.
+      assert (existsb (json_eqb k) r = true) by (apply existsb_exists; exists k; split; [exact Hin|apply json_eqb_refl]). congruence.
+    - intros H. inversion H; subst. split; [|assumption].
+      destruct (existsb (json_eqb k) r) eqn:E; [|reflexivity]. apply existsb_exists in E as [x [Hin Hx]].
+      apply json_eqb_eq in Hx. subst. contradiction.
+  Qed.
+
+  Definition entry_key (e : json) : json := match e with JObj ((_, kj) :: _) => kj | _ => JNull end.
+
+  Lemma m2j_key_nodup (kvs : list (md * md)) : forall (es : list json),
+    Forall2 (fun a e => m2j Detailed (fst a) = Ok (entry_key e)) kvs es ->
+    NoDup (List.map entry_key es) -> NoDup (List.map fst kvs).
+  Proof.
+    induction kvs as [|[mk mv] r IH]; intros es F Hnd; [constructor|].
+    inversion F as [|? e ? es' Hd F']; subst. cbn [List.map fst] in *. inversion Hnd; subst.
+    constructor; [|eauto]. intros Hin. apply H1. clear -Hin F' Hd.
+    induction F' as [|[mk' mv'] e' r es' Hd' F' IHF]; [destruct Hin|].
+    cbn [List.map fst In] in *. destruct Hin as [->|Hin]; [left; congruence|right; auto].
+  Qed.
+
+  Theorem json_md_json_detailed_sized n : forall j, (jsize j < n)%nat ->
+    nf_detailed j = true -> exists m, j2m c Detailed j = Ok m /\ m2j Detailed m = Ok j.
+  Proof.
+    induction n as [|n IHn]; intros j Hn Hnf; [lia|].
+    destruct j as [| | | | | | |l]; try discriminate.
+    destruct l as [|[k v] [|]]; try discriminate. cbn [nf_detailed] in Hnf.
+    destruct (bytes_eqb k k_int) eqn:E1.
+    { apply bytes_eqb_eq in E1. subst k. destruct v; try discriminate. cbn [num_in_json_range] in Hnf.
+      exists (MInt z). rewrite j2m_det_int, encode_number_spec. cbn [num_in_schema]. rewrite Hnf. split; [reflexivity|].
+      cbn [m2j]. now rewrite <- in_range_json, Hnf. }
+    destruct (bytes_eqb k k_string) eqn:E2.
+    { apply bytes_eqb_eq in E2. subst k. destruct v; try discriminate.
+      exists (MText s). rewrite j2m_det_string. unfold new_text. destruct (MD_MAX_LEN <? blen s) eqn:E; [lia|]. split; reflexivity. }
+    destruct (bytes_eqb k k_bytes) eqn:E3.
+    { apply bytes_eqb_eq in E3. subst k. destruct v; try discriminate. apply andb_prop in Hnf as [H1 H2].
+      destruct (lower_hexb_unhex _ H1) as [b [Hu Hh]]. exists (MBytes b). rewrite j2m_det_bytes, Hu.
+      pose proof (unhex_length _ _ Hu) as Hl. unfold new_bytes. destruct (MD_MAX_LEN <? blen b) eqn:E; [unfold MD_MAX_LEN in *; lia|].
+      split; [reflexivity|]. cbn [m2j wrap]. now rewrite Hh. }
+    destruct (bytes_eqb k k_list) eqn:E4.
+    { apply bytes_eqb_eq in E4. subst k. destruct v as [| | | | | |l|]; try discriminate.
+      rewrite forallb_forall in Hnf.
+      assert (Hs : forall x, In x l -> (jsize x < n)%nat).
+      { intros x Hx. pose proof (jsize_arr_in x l Hx). pose proof (jsize_obj_in k_list (JArr l) [(k_list, JArr l)] (or_introl eq_refl)). lia. }
+      assert (Hm : exists xs, mapM (j2m c Detailed) l = Ok xs /\ mapM (m2j Detailed) xs = Ok l).
+      { clear Hn. induction l as [|x r IHl]; [exists []; split; reflexivity|].
+        destruct (IHn x (Hs x (or_introl eq_refl)) (Hnf x (or_introl eq_refl))) as [mx [X1 X2]].
+        destruct (IHl (fun y Hy => Hnf y (or_intror Hy)) (fun y Hy => Hs y (or_intror Hy))) as [xs [R1 R2]].
+        exists (mx :: xs). cbn [mapM]. rewrite X1, R1, X2, R2. split; reflexivity. }
+      destruct Hm as [xs [X1 X2]]. exists (MList xs). rewrite j2m_det_list, X1. split; [reflexivity|].
+      now rewrite m2j_list, X2. }
+    destruct (bytes_eqb k k_map) eqn:E5; [|discriminate].
+    apply bytes_eqb_eq in E5. subst k. destruct v as [| | | | | |es|]; try discriminate.
+    apply andb_prop in Hnf as [Hnd Hes]. apply json_nodupb_NoDup in Hnd. apply entries_all_Forall in Hes.
+    change (fun e : json => match e with JObj ((_, kj) :: _) => kj | _ => JNull end) with entry_key in Hnd.
+    assert (Hs : forall e, In e es -> (jsize e < n)%nat).
+    { intros x Hx. pose proof (jsize_arr_in x es Hx). pose proof (jsize_obj_in k_map (JArr es) [(k_map, JArr es)] (or_introl eq_refl)). lia. }
+    assert (Hm : exists kvs, mapM (entry_dec c) es = Ok kvs /\ mapM entry_enc kvs = Ok es /\
+                             Forall2 (fun a e => m2j Detailed (fst a) = Ok (entry_key e)) kvs es).
+    { clear Hn Hnd. induction es as [|e r IHes]; [exists []; repeat split; constructor|].
+      inversion Hes as [|? ? [kj [vj [-> [Nk Nv]]]] Hr]; subst.
+      pose proof (Hs _ (or_introl eq_refl)) as He.
+      pose proof (jsize_obj_in k_k kj [(k_k, kj); (k_v, vj)] (or_introl eq_refl)) as S1.
+      pose proof (jsize_obj_in k_v vj [(k_k, kj); (k_v, vj)] (or_intror (or_introl eq_refl))) as S2.
+      destruct (IHn kj ltac:(lia) Nk) as [mk [K1 K2]]. destruct (IHn vj ltac:(lia) Nv) as [mv [V1 V2]].
+      destruct (IHes Hr (fun y Hy => Hs y (or_intror Hy))) as [kvs [R1 [R2 R3]]].
+      exists ((mk, mv) :: kvs). cbn [mapM entry_enc]. rewrite entry_dec_exact, K1, V1, R1, K2, V2, R2.
+      repeat split. constructor; [exact K2|exact R3]. }
+    destruct Hm as [kvs [X1 [X2 X3]]]. exists (MMap kvs). rewrite j2m_det_map, X1. cbn [bind].
+    rewrite lhm_of_list_nodup by (eapply m2j_key_nodup; eassumption).
+    split; [reflexivity|]. now rewrite m2j_det_map, X2.
+  Qed.
+
+  Theorem json_md_json sc j :
+    json_wf j = true -> nf sc j = true -> exists m, j2m c sc j = Ok m /\ m2j sc m = Ok j.
+  Proof.
+    intros Hwf Hnf. destruct sc.
+    - apply json_md_json_plain; [discriminate|assumption|assumption].
+    - apply json_md_json_plain; [discriminate|assumption|assumption].
+    - apply (json_md_json_detailed_sized (S (jsize j))); [lia|assumption].
+  Qed.
 End WithCfg.
